@@ -382,6 +382,7 @@ def handleTwin (cmd : String) (a : Args) : String :=
 def handle (cmd : String) (a : Args) : String :=
   match cmd with
   | "mt.trace" => handleMtTrace a
+  | "mt.wtrace" => handleMtWTrace a
   | "twin.extend" | "twin.norm" => handleTwin cmd a
   | "encfast.parse" | "lzma.parse" => handleEncFast cmd a
   | "mf.trace" => if a.get? "kind" == some "bt4" then handleMfBt4 a else handleMfTraceHc4 a
